@@ -328,6 +328,9 @@ pub struct World {
     pub disk: BTreeMap<String, String>, // output name of Output jobs -> content
     pub temp: BTreeMap<String, String>, // output name of Ephemeral jobs -> content, this evaluation
     pub mem: BTreeMap<String, String>,  // output name of Always jobs -> content, this evaluation
+    /// output names of Ephemeral jobs whose temporary file was left behind by an earlier evaluation (never cleaned
+    /// up, or garbage of a failed attempt): the file exists for `output_already_present`, its content is not trusted
+    pub leftover: std::collections::BTreeSet<String>,
 }
 
 pub type History = HashMap<String, String>;
